@@ -253,7 +253,8 @@ def run_symbolic(case, model, rng, profile=False, allow_ties=False):
 
 
 def run_plain(case, point, mode="plain", uses_rng=False):
-    env = Env(mode, point=point)
+    env = Env(mode, point=dict(point))
+    env.autosample = True      # names the symbolic run never reached (it stopped early) get a sampled value
     if uses_rng:
         ar.install_plain(env.feed)
     else:
@@ -584,7 +585,19 @@ def decide_case(case, opts):
         if res["violations"]:
             break      # one reproduced counterexample per configuration is enough
         if pr.error and pr.error[0] == "unsupported":
-            res["inconclusive"].append(pr.error[1])
+            # the shim could not follow the code here (e.g. the code produced a nan constant).  The plain run at the same
+            # point is still judged by the oracle: a reproducing violation is reported, anything else stays inconclusive.
+            cand = {"label": "plain run where the symbolic run is unsupported", "kind": "value", "point": _clean(pr.model),
+                    "detail": "symbolic execution stopped with %s; the plain run is judged by the oracle" % pr.error[1][:160]}
+            try:
+                rep = _replay(case, cand, uses_rng)
+            except Exception as e:  # noqa: BLE001
+                rep = (False, "replay failed: %r" % (e,))
+            if rep[0]:
+                cand["replay"] = rep[1]
+                res["violations"].append(cand)
+            else:
+                res["inconclusive"].append(pr.error[1])
             continue
         if pr.error and pr.error[0] == "oob":
             # the real code read outside its buffer: replay the very same point on the plain code, where NumPy reads
@@ -1035,7 +1048,7 @@ def replay_generic(case, cand, uses_rng=False):
             return True, "%s: shapes %s vs %s" % (l, osh, esh)
         scl = _scale(e)
         for i, (a, b) in enumerate(zip(o, e)):
-            if abs(a - b) > 1e-5 * scl:
+            if not abs(a - b) <= 1e-5 * scl and not (a != a and b != b):
                 msgs.append("%s[%d]: code=%.8g reference=%.8g" % (l, i, a, b))
     for l, lhs, rel, rhs in out.claims:
         a, _ = flat_floats(lhs)
